@@ -7,7 +7,7 @@ N=${1:-120}
 H=$(tools/simbuild.sh 2>/dev/null) || { echo "build failed"; exit 2; }
 D=$(mktemp -d -p /dev/shm verif-det.XXXX); trap 'rm -rf $D' EXIT
 rc=0
-for spec in "crashsim C01" "crashsim C20" "sqlsim C09" "sqlsim C10" "sqlsim C06" "sqlsim C11" "sqlsim C03" "txnsim C04" "consim C12" "consim C04" "consim C17" "consim C16" "consim C13" "consim C08" "crashsim C10" "pagesim C15" "locksim C16" "bpmsim C13" "idxsim C17"; do
+for spec in "crashsim C01" "crashsim C20" "sqlsim C09" "sqlsim C10" "sqlsim C06" "sqlsim C11" "sqlsim C03" "txnsim C04" "consim C12" "consim C04" "consim C17" "consim C16" "consim C13" "consim C08" "consim C09" "consim C03" "crashsim C10" "sqlsim C07" "pagesim C15" "locksim C16" "bpmsim C13" "idxsim C17"; do
   set -- $spec; drv=$1; prop=$2
   n=$N; [ $drv = crashsim ] && n=$(( (N+3)/4 ))   # crash explorations are two orders of magnitude slower per run
   i=0
